@@ -259,19 +259,9 @@ def tx_fields(ctx):
     outp = first_ctor(targs.get('outputs'), 'Output')
     # constructor conventions, evaluated on the repository's constructors
     def tx_version(v):
-        fn = repo.func('transactions:Transaction.__init__')
-        nodes = [n for n in walk_no_nested(fn) if isinstance(n, ast.If) and ('not version' == unparse(n.test) or 'isinstance(version, int)' in unparse(n.test))]
-        if len(nodes) != 2:
-            ctx.undecided('Transaction.__init__: version handling not found')
-        it = Interp(repo, 'transactions', hooks=LAYOUT_HOOKS, self_cls='transactions:Transaction')
-        it.assume_full_reads = True
+        from .common_txinit import stored_version
         is_int = isinstance(v, tuple) and v and v[0] in ('bytes2int', 'int')
-        it.decide = lambda t: is_int if isinstance(t, tuple) and t[0] == 'isinstance' else (True if isinstance(t, tuple) and t[0] == 'rd' else None)
-        st = State(env={'version': S(v, 'int' if is_int else 'bytes'), 'self': S(SELF)})
-        it.frames.append([])
-        for n in sorted(nodes, key=lambda n: n.lineno):
-            st = it.exec_if(n, st)
-        return term(st.heap.get(A(SELF, 'version')))
+        return stored_version(ctx, v, is_int)[0]
     checks = []
     # (field name, stored attribute term, writer expression over that attribute, bytes expected)
     v_stored = tx_version(targs.get('version'))
